@@ -1,5 +1,6 @@
 import MJ.Model.Num
 import MJ.Model.NumLex
+import MJ.Model.NumF
 /-! Line driver for C08: `<op> <A> [<B>]` → `case<TAB>model<TAB>spec`.
 
 * model: result of the Lean model of the engine (`i:<dec>` / `err:InvalidOperation`), `skip` for
@@ -59,14 +60,109 @@ def parseOperand (tok : String) : Option (Opd × Int) :=
       else none
   | _ => none
 
+def showRes : Res → String
+  | .ok v => s!"i:{v.val}"
+  | .err => "err:InvalidOperation"
+
+def hexDigit (c : Char) : Option Nat :=
+  if '0' ≤ c ∧ c ≤ '9' then some (c.toNat - 48)
+  else if 'a' ≤ c ∧ c ≤ 'f' then some (c.toNat - 87)
+  else if 'A' ≤ c ∧ c ≤ 'F' then some (c.toNat - 55) else none
+
+def parseHex (s : String) : Option Nat :=
+  s.toList.foldl (fun acc c => match acc, hexDigit c with
+    | some a, some d => some (a * 16 + d)
+    | _, _ => none) (some 0)
+
+def hex16 (n : Nat) : String :=
+  let ds := Nat.toDigits 16 n
+  String.ofList (List.replicate (16 - ds.length) '0' ++ ds)
+
+/-- `f32 as f64` (exact widening) of a finite single given by its bits -/
+def f32ToF64 (b : Nat) : Nat :=
+  let sgn := b / 2147483648
+  let e := (b % 2147483648) / 8388608
+  let m := b % 8388608
+  let signBits := sgn * 9223372036854775808
+  if e = 0 then
+    if m = 0 then signBits
+    else
+      -- subnormal single: m * 2^-149, normal as a double
+      let l := Nat.log2 m
+      signBits + (l + 1023 - 149) * 4503599627370496 + (m * 2 ^ (52 - l) - 4503599627370496)
+  else signBits + (e + 896) * 4503599627370496 + m * 536870912
+
+/-- any numeric operand as a number of the shared value model (floats by bit pattern) -/
+def parseN (tok : String) : Option MJ.Val.N :=
+  match tok.splitOn ":" with
+  | [form, v] =>
+    if form = "flit" ∨ form = "f64" ∨ form = "sf64" then (parseHex v).map .f64
+    else if form = "f32" ∨ form = "sf32" then (parseHex v).map (fun b => .f64 (f32ToF64 b))
+    else if form = "fsrc" then
+      match v.splitOn "=" with
+      | [_, bits] => (parseHex bits).map .f64
+      | _ => none
+    else
+      match parseOperand tok with
+      | some (.val (.ok r), _) => some (MJ.NumF.ofRepr r)
+      | _ => none
+  | _ => none
+
+def showBits (b : Nat) : String := s!"f:{hex16 b}"
+def showBool (b : Bool) : String := if b then "b:1" else "b:0"
+
+def parseCmp (s : String) : Option MJ.NumF.CmpOp :=
+  if s = "lt" then some .lt else if s = "le" then some .le else if s = "gt" then some .gt
+  else if s = "ge" then some .ge else if s = "eq" then some .eq else if s = "ne" then some .ne else none
+
+def isFloatN : MJ.Val.N → Bool
+  | .f64 _ => true
+  | _ => false
+
+/-- cases outside the integer fragment: comparisons, float `//` `%`, float unary minus, filters -/
+def handleExtra (fields : List String) : Option String :=
+  match fields with
+  | ["neg", a] =>
+    match parseN a with
+    | some (.f64 b) => some (showBits (MJ.NumF.fneg b))
+    | _ => none
+  | ["f_abs", a] =>
+    match parseN a, parseOperand a with
+    | some (.f64 b), _ => some (showBits (MJ.NumF.fabs b))
+    | _, some (.val (.ok r), _) => some (showRes (absFilter r))
+    | _, _ => none
+  | ["f_float", a] => (parseN a).map (fun n => showBits (MJ.NumF.asF64Lossy n))
+  | ["f_int", a] =>
+    match parseN a, parseOperand a with
+    | some (.f64 b), _ => some (showRes (MJ.NumF.intOfFloat b))
+    | _, some (.val (.ok r), _) => some (showRes (intFilter r))
+    | _, _ => none
+  | ["f_round", a] =>
+    match parseOperand a with
+    | some (.val (.ok r), _) => some (showRes (intFilter r))
+    | _ => none
+  | ["f_sum", a, b] =>
+    match parseOperand a, parseOperand b with
+    | some (.val (.ok x), _), some (.val (.ok y), _) => some (showRes (sumFilter [x, y]))
+    | _, _ => none
+  | [op, a, b] =>
+    match parseN a, parseN b with
+    | some x, some y =>
+      match parseCmp op with
+      | some c => some (showBool (MJ.NumF.cmpOp c x y))
+      | none =>
+        if isFloatN x || isFloatN y then
+          if op = "rem" then (MJ.NumF.remF x y).map showBits
+          else if op = "fdiv" then (MJ.NumF.intDivF x y).map showBits
+          else none
+        else none
+    | _, _ => none
+  | _ => none
+
 def parseOp (s : String) : Option Op :=
   if s = "add" then some .add else if s = "sub" then some .sub else if s = "mul" then some .mul
   else if s = "fdiv" then some .floordiv else if s = "rem" then some .rem
   else if s = "pow" then some .pow else none
-
-def showRes : Res → String
-  | .ok v => s!"i:{v.val}"
-  | .err => "err:InvalidOperation"
 
 def showSpec (defined : Bool) (big : Bool) (exact : Int) (req : Bool) : String :=
   if !defined then "undef"
@@ -114,7 +210,10 @@ def handle (line : String) : String :=
         | .val .err => showRes .err
         | .syntaxErr => "err:SyntaxError"
       s!"{case}\t{m}\t{showSpec true false (-va) (decide (InI128 va) && decide (InI128 (-va)))}"
-    | none => s!"{case}\tskip\t-"
+    | none =>
+      match handleExtra ["neg", a] with
+      | some m => s!"{case}\t{m}\t-"
+      | none => s!"{case}\tskip\t-"
   | [op, a, b] =>
     match parseOp op, parseOperand a, parseOperand b with
     | some op, some (oa, va), some (ob, vb) =>
@@ -124,8 +223,14 @@ def handle (line : String) : String :=
         | .val (.ok x), .val (.ok y) => showRes (binop op x y)
         | _, _ => showRes .err
       s!"{case}\t{m}\t{specBin op va vb}"
-    | _, _, _ => s!"{case}\tskip\t-"
-  | _ => s!"{case}\tskip\t-"
+    | _, _, _ =>
+      match handleExtra [op, a, b] with
+      | some m => s!"{case}\t{m}\t-"
+      | none => s!"{case}\tskip\t-"
+  | fields =>
+    match handleExtra fields with
+    | some m => s!"{case}\t{m}\t-"
+    | none => s!"{case}\tskip\t-"
 
 partial def loop (h : IO.FS.Stream) (out : IO.FS.Stream) : IO Unit := do
   let line ← h.getLine
